@@ -39,10 +39,15 @@ fn gen_restriction(r: &mut Rng) -> ClvmFlags {
 }
 
 fn check07(ctx: &mut Ctx, r: &mut Rng, f: &Forest, prog: Id, env: Id, base: ClvmFlags, budget: u64) {
+    check07_with(ctx, r, f, prog, env, base, budget, None)
+}
+
+#[allow(clippy::too_many_arguments)]
+fn check07_with(ctx: &mut Ctx, r: &mut Rng, f: &Forest, prog: Id, env: Id, base: ClvmFlags, budget: u64, forced: Option<ClvmFlags>) {
     let plan = r.u64();
     let vary = if r.chance(1, 3) { r.range(1, 16) } else { 0 };
     // (1) restriction: strict success => lenient identical success
-    let restr = gen_restriction(r);
+    let restr = forced.unwrap_or_else(|| gen_restriction(r));
     let lenient = base & !restr;
     let strict = lenient | restr;
     let (Some(ol), Some(os)) = (
@@ -151,7 +156,15 @@ fn directed07(f: &mut Forest) -> Vec<(Id, Id)> {
         "(substr (q . \"abcdef\") (q . 0x0001))",
         "(ash (q . 1) (q . 0x0003))",
     ];
-    texts.iter().map(|t| (sexp::parse(f, t, &vars), env)).collect()
+    let mut out: Vec<(Id, Id)> = texts.iter().map(|t| (sexp::parse(f, t, &vars), env)).collect();
+    // every spelling of the small extension numbers (nil, one zero byte, padded) x guards that fail or succeed
+    for ext in ["()", "0x00", "0x0000", "0x000000", "0x00000000", "0x0000000000", "1", "0x0001", "0x000001", "2", "0x0002", "0x0080", "0x80", "0x00ff"] {
+        for (cost, body) in [("200", "(q . 1)"), ("160", "(q . 1)"), ("160", "(x)"), ("0x00a0", "(q . 1)"), ("0x0000c8", "(q . 1)")] {
+            let t = format!("(softfork (q . {cost}) (q . {ext}) (q . {body}) (q . ()))");
+            out.push((sexp::parse(f, &t, &vars), env));
+        }
+    }
+    out
 }
 
 pub fn run_c07(ctx: &mut Ctx) {
@@ -168,6 +181,14 @@ pub fn run_c07(ctx: &mut Ctx) {
             let mut r = ctx.rng(cid);
             let base = if k == 0 { ClvmFlags::empty() } else { gen_flags(&mut r, ClvmFlags::all()) };
             check07(ctx, &mut r, &f, *p, *e, base, 0);
+            if k == 0 {
+                // every restriction flag on its own, and all of them, over the empty and the new-cost-model base
+                for b in [ClvmFlags::empty(), ClvmFlags::NEW_COST_MODEL] {
+                    for restr in RESTRICT.iter().copied().chain([MEMPOOL_MODE]) {
+                        check07_with(ctx, &mut r, &f, *p, *e, b, 0, Some(restr));
+                    }
+                }
+            }
         }
     }
     let n = ctx.n(500_000, 40_000_000);
